@@ -492,7 +492,7 @@ def _fam_kwargs(fam, pop, par):
     if fam == "OptimalPopulationValueSelection":
         return dict(ntrait=pop.t, nhaploblk=pop.m)
     if fam == "GenotypeBuilderSelection":
-        return dict(ntrait=pop.t, nhaploblk=pop.m, nbestfndr=2)
+        return dict(ntrait=pop.t, nhaploblk=pop.m, nbestfndr=0.5)
     if fam in ("MultiObjectiveGenomicSelection", "PopulationAlleleFrequencyDistanceSelection", "PopulationAlleleUnavailabilitySelection"):
         from pybrops.breed.prot.sel.targetfn import target_positive
         from pybrops.breed.prot.sel.weightfn import weight_absolute
@@ -604,10 +604,14 @@ def designs_B(info, n):
     for c in (1, 2, 3):
         for p in nps:
             if info["mate"]:
-                if p > n or (p == 1 and False):
+                if p > 3:
                     continue
-                if c <= 3 and p <= 3:
-                    out.append((c, p))
+                nx = [len(R.xmap_ref(n, p, u.get("unique", True))) for u in fam["params"]]
+                if min(nx) < 1 or (info["enc"] == "subset" and min(nx) < c):
+                    continue                       # fewer candidate crosses than crosses to choose: not a valid request
+                if info["enc"] != "subset" and max(nx) > 6:
+                    continue                       # keeps the brute-force optimiser's scan <= 3^6 decisions
+                out.append((c, p))
             elif info["enc"] == "subset":
                 if c * p <= n and p <= n:
                     out.append((c, p))
